@@ -32,14 +32,15 @@ BOUNDS = [
     "tetrahedra: all 16 flip subsets x face orders from a committed list (quick: 2 orders, thorough: all 24); sliver: quick 2 flip subsets; prism / cube: all single "
     "flips and the all-flipped mesh, 2 face orders (quick: 3 flip subsets, 1 order)",
     "self-intersection: (a) thin spike B (apex c+d*(1,1,1) on the axis through the centroid c of the slanted face of tetrahedron A=4*unit, base 1 further out), "
-    "d in [-1.3,1] symbolic, truth -1<d<0; (b) B = A shifted by d along x, d in [-5,5], truth 0<|d|<4; touching configurations excluded by bands of 1e-5 "
+    "d in [-1.3,1] symbolic, truth -1<d<0; (a') a short thin spike through the same face next to its corner, far from the face centroid, d in [-0.25,0.2]; "
+    "(b) B = A shifted by d along x, d in [-5,5], truth 0<|d|<4; touching configurations excluded by bands of 1e-5 "
     "(the code's point tolerance eps is 1e-6); face orders B-first, A-first, interleaved (thorough: + reversed interleaved, one flipped face)",
 ]
-CUTS = ["self-intersection cases only: scipy.spatial.KDTree (compiled) is replaced by a stub whose ball query returns every triangle, so the candidate-pair "
-        "filter and the segment/facet tests of get_intersecting_triangles run on all pairs; whether the search radius r_factor*max-extent is large enough to "
-        "contain every intersecting pair is outside the claim", "vertices.astype(float32) is the identity (real arithmetic)"]
+CUTS = ["self-intersection cases only: scipy.spatial.KDTree (compiled) is replaced by a stub that implements query_ball_point by its definition "
+        "(|c_j - p_i| <= r, each comparison a solver-decided branch), so the search radius computed by the code is part of what is checked",
+        "vertices.astype(float32) is the identity (real arithmetic)"]
 ASSUMPTIONS = ["real arithmetic", "the base meshes are closed and connected (status checks are not the subject here)"]
-NOT_DECIDED = ["check_open, check_disconnected (index combinatorics without a symbolic dimension)", "check_selfintersecting beyond the two committed two-part families (spike through a face; two equal tetrahedra shifted along x)",
+NOT_DECIDED = ["check_open, check_disconnected (index combinatorics without a symbolic dimension)", "check_selfintersecting beyond the three committed two-part families (spike through the middle / next to a corner of a face; two equal tetrahedra shifted along x)",
                "vertex renumbering (the algorithm only sees vertices[faces])"]
 
 S_LO, S_HI = z3.RealVal("1/1000000000"), z3.RealVal(1000000000)
@@ -92,12 +93,15 @@ def cases(tier, seed):
             if tier == "quick" and (oi > 0 or fs not in ([], [2, 5], [1, 3, 4, 6])):
                 continue
             out.append({"id": f"two-tetra-order{oi}-flips{'_'.join(map(str, fs)) or 'none'}", "base": "two-tetra", "order": order, "flips": fs, "weight": 6})
-    for geom in ("spike", "shifted"):
+    for geom in ("spike", "shifted", "spike-corner"):
         for order in SI_ORDERS:
             for fl in ([], [1]):
                 if tier == "quick" and (order in ("interleaved-rev", "Afirst" if geom == "spike" else "interleaved") or fl):
                     continue
-                out.append({"id": f"selfintersect-{geom}-{order}" + ("-flip1" if fl else ""), "kind": "selfintersect", "geom": geom, "order": order, "flips": fl, "weight": 8})
+                if tier == "quick" and (geom == "spike" or (geom == "spike-corner" and order != "Bfirst")):
+                    continue  # quick: the off-centre spike (B first) covers one-directional piercing; the centred spike family is thorough-tier
+                out.append({"id": f"selfintersect-{geom}-{order}" + ("-flip1" if fl else ""), "kind": "selfintersect", "geom": geom, "order": order, "flips": fl, "weight": 9,
+                            "budget": 700 if tier == "quick" else 3000})
     for base in ("prism", "cube"):
         nf = len(BASES[base][1])
         orders = [list(range(nf)), list(range(nf))[::-1]]
@@ -138,6 +142,18 @@ def _si_geometry(kind, d):
                 V[5 + j, k] = third + d + 1 + S(toz(U[j, k]))
         pre = [d.z >= z3.RealVal("-13/10"), d.z <= 1, _band(d.z), _band(d.z + 1)]
         truth = z3.And(d.z > -1, d.z < 0)
+    elif kind == "spike-corner":
+        # a short thin spike through the slanted face next to its corner (4,0,0), far from the centroid of that large face: the pair
+        # (large face, small spike triangle) is a candidate only if the search radius follows the LARGEST triangle
+        P0 = SPIKE_CORNER_P0
+        U = np.array([(1, -1, 0), (0, 1, -1), (-1, 0, 1)], dtype=float) * SPIKE_CORNER_W
+        for k in range(3):
+            V[4, k] = S(toz(P0[k])) + d
+            for j in range(3):
+                V[5 + j, k] = S(toz(P0[k])) + d + S(toz(SPIKE_CORNER_LEN)) + S(toz(U[j, k]))
+        L = z3.RealVal(str(SPIKE_CORNER_LEN))
+        pre = [d.z >= z3.RealVal("-1/4"), d.z <= z3.RealVal("1/5"), _band(d.z), _band(d.z + L)]
+        truth = z3.And(d.z > -L, d.z < 0)
     else:  # shifted copy
         for i in range(4):
             for k in range(3):
@@ -147,9 +163,19 @@ def _si_geometry(kind, d):
     return V.view(SymArray), pre, truth
 
 
+SPIKE_CORNER_P0 = (3.375, 0.3125, 0.3125)  # on the plane x+y+z=4, exact in binary
+SPIKE_CORNER_LEN = 0.1875
+SPIKE_CORNER_W = 0.03125
+
+
 def _si_geometry_float(kind, dv):
     V = np.zeros((8, 3))
     V[:4] = A4
+    if kind == "spike-corner":
+        U = np.array([(1, -1, 0), (0, 1, -1), (-1, 0, 1)], dtype=float) * SPIKE_CORNER_W
+        V[4] = np.array(SPIKE_CORNER_P0) + dv
+        V[5:] = np.array(SPIKE_CORNER_P0) + dv + SPIKE_CORNER_LEN + U
+        return V, (-SPIKE_CORNER_LEN < dv < 0)
     if kind == "spike":
         U = np.array([(1, -1, 0), (0, 1, -1), (-1, 0, 1)], dtype=float) * 0.25
         V[4] = 4 / 3 + dv
@@ -172,14 +198,27 @@ def _si_faces(case):
     return np.array(faces, dtype=int)
 
 
-class _AllPairsTree:
-    """stands in for scipy.spatial.KDTree: every triangle is a candidate neighbour of every triangle"""
+class _BallTree:
+    """stands in for scipy.spatial.KDTree (compiled): query_ball_point by its definition - the indices j with |c_j - p_i| <= r - with every
+    comparison decided by the solver like any other branch of the code under test"""
 
     def __init__(self, centers, *a, **k):
-        self.n = len(centers)
+        self.c = np.asarray(centers, dtype=object)
 
     def query_ball_point(self, pts, r, **k):
-        return [np.arange(self.n) for _ in range(len(pts))]
+        pts = np.asarray(pts, dtype=object)
+        r = r if isinstance(r, S) else S(toz(r))
+        r2 = r * r
+        out = []
+        for p in pts:
+            idx = []
+            for j, c in enumerate(self.c):
+                diff = [S(z3.simplify((p[k] - c[k]).z)) for k in range(3)]  # the translation cancels for two triangles of the same part
+                d2 = diff[0] * diff[0] + diff[1] * diff[1] + diff[2] * diff[2]
+                if bool(d2 <= r2):
+                    idx.append(j)
+            out.append(np.array(idx, dtype=int))
+        return out
 
 
 def _run_selfintersect(case, info):
@@ -189,7 +228,8 @@ def _run_selfintersect(case, info):
     from magpylib._src.fields import field_BH_triangularmesh as TM
 
     C = Case(case, info)
-    install.patch("magpylib._src.fields.field_BH_triangularmesh", "scipy", types.SimpleNamespace(spatial=types.SimpleNamespace(KDTree=_AllPairsTree)))
+    CTX.decide_timeout = 8000  # an undecided branch is explored as feasible: spurious paths cost far more than a patient decision
+    install.patch("magpylib._src.fields.field_BH_triangularmesh", "scipy", types.SimpleNamespace(spatial=types.SimpleNamespace(KDTree=_BallTree)))
     d = sym("d")
     V, pre, truth = _si_geometry(case["geom"], d)
     CTX.pre = list(pre)
@@ -218,7 +258,9 @@ def _run_selfintersect(case, info):
         if len(C.samples) < 2:
             C.samples.append({"case": case["id"], "what": f"path reporting intersecting triangles {np.asarray(p.out).tolist()}: feasible only for d with truth={reported}"})
 
-    seeds = [{"d": -0.5}, {"d": 0.5}, {"d": -1.2}] if case["geom"] == "spike" else [{"d": 1.0}, {"d": -2.5}, {"d": 4.5}, {"d": -4.5}]
+    seeds = {"spike": [{"d": -0.5}, {"d": 0.5}, {"d": -1.2}], "spike-corner": [{"d": -0.125}, {"d": 0.125}, {"d": -0.21875}],
+             "shifted": [{"d": 1.0}, {"d": -2.5}, {"d": 4.5}, {"d": -4.5}]}[case["geom"]]
+    C.try_envs = seeds
     paths = explore(run, max_paths=60 if C.tier == "quick" else 400, on_path=on_path, seeds=seeds)
     C.decisions += sum(len(p.decisions) for p in paths)
     if explore.truncated:
